@@ -1,10 +1,67 @@
 import DFV.JsonField
+import DFV.Model.C06
 namespace DFV.Drv
-open Lean DFV
+open Lean DFV DFV.C06
 
-/-- driver ops of property C06 (stub: no ops yet) -/
+/-- `direction` argument: null / absent → `None`, string, list of strings, anything else -/
+def dirOfJson (j : Json) : C06.Dir :=
+  match fldOpt j "dir" with
+  | none => .none
+  | some (.str s) => .name s
+  | some (.arr a) =>
+    match a.toList.mapM (fun e => match e with | Json.str s => some s | _ => none) with
+    | some ds => .names ds
+    | none => .other
+  | some _ => .other
+
+def resToJson : C06.Res → Json
+  | .vals v => Json.mkObj [("vals", ratsJ v)]
+  | .field f => Json.mkObj [("field", fldToJson f)]
+
+/-- one request against an already parsed field -/
+def c06On (f : Fld) (op : String) (j : Json) : R Json :=
+  match op with
+  | "integrate" => do
+      let cum ← boolOfJson (← fld j "cumulative")
+      pure (resJ resToJson (integrate f (dirOfJson j) cum))
+  | "mean" => pure (resJ resToJson (mean f (dirOfJson j)))
+  | "integrate_seq" => do
+      let ds ← strs j "dirs"
+      pure (resJ resToJson (integrateSeq f ds))
+  | "sel" => do
+      let d ← strOfJson (← fld j "dim")
+      pure (resJ meshToJson (sel f.mesh d))
+  | "dV" => pure (Json.mkObj [("ok", ratToJson (dV f.mesh)), ("cell", ratsJ f.mesh.cell)])
+  | _ => throw s!"unknown sub-op {op}"
+
+/-- driver ops of property C06 -/
 def c06 (op : String) (j : Json) : Option (R Json) :=
   match op with
+  | "batch" => some do
+      let f ← fldOfJson (← fld j "field")
+      let reqs ← arr (← fld j "reqs")
+      let outs ← reqs.toList.mapM fun r => do
+        let o ← strOfJson (← fld r "op")
+        c06On f o r
+      pure (Json.mkObj [("ok", .arr outs.toArray)])
+  | "integrate" => some do
+      let f ← fldOfJson (← fld j "field")
+      let cum ← boolOfJson (← fld j "cumulative")
+      pure (resJ resToJson (integrate f (dirOfJson j) cum))
+  | "mean" => some do
+      let f ← fldOfJson (← fld j "field")
+      pure (resJ resToJson (mean f (dirOfJson j)))
+  | "integrate_seq" => some do
+      let f ← fldOfJson (← fld j "field")
+      let ds ← strs j "dirs"
+      pure (resJ resToJson (integrateSeq f ds))
+  | "sel" => some do
+      let m ← meshOfJson (← fld j "mesh")
+      let d ← strOfJson (← fld j "dim")
+      pure (resJ meshToJson (sel m d))
+  | "dV" => some do
+      let m ← meshOfJson (← fld j "mesh")
+      pure (Json.mkObj [("ok", ratToJson (dV m)), ("cell", ratsJ m.cell)])
   | _ => none
 
 end DFV.Drv
